@@ -27,7 +27,7 @@ ASSUMPTIONS = ["admissible families as documented in the code: star (n_clusters<
 EVAL_COUNTER = "calls"
 REQUIRED = {"quick": {"calls": 1500, "calls_with_candidates": 1200, "chosen:star": 200, "chosen:switch": 100,
                       "chosen:reallocation": 5, "chosen:double_star": 3, "fits_score_checked": 100, "no_split_calls": 50,
-                      "synthetic_calls": 2000, "considered:reallocation": 300, "considered:double_star": 300, "explorable_sets_checked": 200},
+                      "synthetic_calls": 2000, "light_calls": 800, "bigfits_over_32_leaves": 12, "bigfits_over_64_leaves": 3, "considered:reallocation": 300, "considered:double_star": 300, "explorable_sets_checked": 200},
             "thorough": {"calls": 30000, "san:calls": 2000, "chosen:reallocation": 100, "chosen:double_star": 50}}
 SHARD_TIMEOUT = {"quick": 1500, "thorough": 7000}
 
@@ -38,6 +38,9 @@ def cases(tier, seed):
     nf, ns = (160, 4000) if tier == "quick" else (3000, 60000)
     out = [{"kind": "fit", "seed": seed, "i": i, "tier": tier} for i in range(nf)]
     out += [{"kind": "synthetic", "seed": seed, "i0": i, "i1": min(i + 25, ns)} for i in range(0, ns, 25)]
+    # long fits: dozens of clusters, up to ~100 leaves (whatever bookkeeping grows with the tree is exercised past its
+    # first allocation); the exhaustive enumeration is out of reach there, see State.check_light
+    out += [{"kind": "bigfit", "seed": seed, "i": i, "tier": tier} for i in range(32 if tier == "quick" else 400)]
     return out
 
 
@@ -96,6 +99,8 @@ class State:
         n = kernel.shape[0]
         scale = max(1.0, n * float(np.max(np.abs(kernel))))
         tol = 1e-9 * scale
+        if self.mode == "bigfit":
+            return self.check_light(snap, split, tol)
         J0, labels, cands = ref.enumerate_candidates(kernel, X, leaves, Y, Z, n_clusters, K_max, n_leaves, min_leaf, feats)
         for fam in {c[6] for c in cands}:
             ctx.count("considered:" + fam)
@@ -189,6 +194,58 @@ def setup(ctx):
     return State(ctx)
 
 
+def _check_light(self, snap, split, tol):
+    """Long fits (n up to ~170, dozens of leaves and clusters): enumerating every candidate is out of reach, so only the
+    clauses that cost O(n^2) are decided: the returned split is admissible (explorable leaf, candidate feature, observed
+    threshold followed by a larger value, both sides >= min_leaf, targets allowed by max_clusters) and its gain is the
+    real increase of the objective (relabel + recompute)."""
+    ctx = self.ctx
+    kernel, X, leaves, Y, Z, n_clusters, K_max, n_leaves, min_leaf, feats = snap
+    ctx.count("light_calls")
+    labels, leaf_of, cluster_of_leaf = ref.state_labels(Y, Z, n_leaves)
+    gain = float(split.gain)
+    if not (split.leaf >= 0 and gain > 0):
+        ctx.count("no_split_calls")
+        return
+    lt, rt, leaf, feat, thr = int(split.left_target), int(split.right_target), int(split.leaf), int(split.feature), float(split.threshold)
+    k = int(cluster_of_leaf[leaf])
+    fam = family(lt, rt, k, n_clusters)
+    ctx.count("chosen:" + fam)
+    ctx.count("light_chosen:" + fam)
+    if fam == "double_star":
+        self.fit_had_double_star = True
+    idx = np.where(leaf_of == leaf)[0]
+    vals = X[idx, feat] if 0 <= feat < X.shape[1] else np.array([])
+    nl, nr = int(np.sum(vals <= thr)), int(np.sum(vals > thr))
+    sizes = np.bincount(labels, minlength=max(n_clusters, 1))
+    whole = len(idx) == sizes[k]
+    ok = (leaf in set(int(x) for x in leaves) and feat in set(int(x) for x in feats) and bool(np.any(vals == thr))
+          and nl >= min_leaf and nr >= min_leaf and 0 <= lt < K_max and 0 <= rt < K_max
+          and max(lt, rt) <= n_clusters + (1 if fam == "double_star" else 0)
+          and not (fam in ("double_star", "reallocation") and whole) and not (fam == "reallocation" and lt == rt))
+    if fam == "double_star":
+        ok = ok and {lt, rt} == {n_clusters, n_clusters + 1} and n_clusters < K_max - 1
+    if fam == "star":
+        ok = ok and n_clusters < K_max and max(lt, rt) == n_clusters and min(lt, rt) == k
+    if not ok:
+        ctx.violation("admissible-split", f"returned-split-not-admissible/{fam}",
+                      observed={"leaf": leaf, "feature": feat, "threshold": thr, "targets": [lt, rt], "gain": gain, "sizes": [nl, nr],
+                                "n_clusters": n_clusters, "K_max": K_max, "min_leaf": min_leaf, "n_leaves": n_leaves},
+                      expected="explorable leaf, candidate feature, observed threshold, both sides >= min_leaf, legal targets")
+        return
+    real, _, _ = ref.split_gain(kernel, X, Y, Z, n_leaves, leaf, feat, thr, lt, rt)
+    ctx.distinct("light", kernel.tobytes().hex()[:32], labels.tobytes().hex()[:64], leaf, feat, thr)
+    if abs(real - gain) > tol:
+        mech = "double-star-gain" if fam == "double_star" else f"wrong-gain/{fam}"
+        ctx.violation("gain-is-real", mech,
+                      observed={"returned_gain": gain, "family": fam, "leaf": leaf, "feature": feat, "threshold": thr, "targets": [lt, rt],
+                                "n": int(kernel.shape[0]), "n_leaves": n_leaves, "n_clusters": n_clusters},
+                      expected={"actual_increase": real, "tol": tol})
+
+
+State.check_light = _check_light
+
+
 def _random_kernel(rng, X, nonneg):
     from sklearn.metrics import pairwise_kernels
     n = len(X)
@@ -202,8 +259,59 @@ def _random_kernel(rng, X, nonneg):
     return pairwise_kernels(X, metric=k), k
 
 
+def _run_bigfit(case, ctx, st):
+    from gemclus.tree import Kauri
+    i = case["i"]
+    rng = gen.rng_for(case["seed"], ID, "bigfit", i)
+    n, d = int(rng.integers(90, 171)), int(rng.integers(1, 4))
+    X = gen.make_data(rng, n, d, "blobs", centers=int(rng.integers(3, 12)))
+    K = int(rng.integers(34, max(36, int(0.6 * n))))
+    params = {"max_clusters": K, "kernel": ["rbf", "linear", "laplacian", "poly"][int(rng.integers(0, 4))],
+              "random_state": gen.subseed(rng) % 100000}
+    if rng.random() < 0.3:
+        params["min_samples_leaf"] = 2
+        params["min_samples_split"] = int(rng.integers(4, 7))
+    est = Kauri(**params)
+    st.mode = "bigfit"
+    st.fit_had_double_star = False
+    st.fit_calls = 0
+    ctx.case = dict(case, params=params, n=n, d=d)
+    ctx.count("bigfits")
+    try:
+        est.fit(X)
+    except Exception as e:
+        ctx.violation("fit-completes", f"kauri-fit-raises/{type(e).__name__}", observed={"exc": repr(e)[:300], "params": params},
+                      expected="fit returns")
+        return
+    finally:
+        st.mode = "fit"
+    from sklearn.metrics import pairwise_kernels
+    kernel = pairwise_kernels(X, metric=params["kernel"])
+    t = est.tree_
+    n_leaves = int(sum(1 for q in range(t.n_nodes) if t.children_left[q] == -1))
+    ctx.maxi("max:bigfit_leaves", n_leaves)
+    if n_leaves > 32:
+        ctx.count("bigfits_over_32_leaves")
+    if n_leaves > 64:
+        ctx.count("bigfits_over_64_leaves")
+    root = ref.objective_fast(np.zeros(n, dtype=int), kernel)
+    total = root + float(sum(t.gains))
+    sc = float(est.score(X))
+    real = ref.objective_fast(np.asarray(est.labels_), kernel)
+    tol = 1e-9 * max(1.0, n * float(np.max(np.abs(kernel)))) * max(1, len(t.gains))
+    ctx.count("fits_score_checked")
+    if abs(sc - real) > tol:
+        ctx.violation("score-is-objective", "score-not-objective-of-labels", observed={"score": sc, "leaves": n_leaves}, expected=real)
+    if abs(total - real) > tol:
+        mech = "double-star-gain" if st.fit_had_double_star else "score-not-root-plus-gains"
+        ctx.violation("score-decomposition", mech, observed={"root_plus_gains": total, "leaves": n_leaves, "params": params},
+                      expected={"objective_of_labels": real})
+
+
 def run_case(case, ctx, st):
     from gemclus.tree import Kauri
+    if case["kind"] == "bigfit":
+        return _run_bigfit(case, ctx, st)
     if case["kind"] == "fit":
         i = case["i"]
         rng = gen.rng_for(case["seed"], ID, "fit", i)
